@@ -241,3 +241,97 @@ Definition handle_pong (s : service) (p : pong) (now_q now_i : N) : service :=
 
 Definition run_pongs (s : service) (ps : list (pong * N * N)) : service :=
   fold_left (fun s x => let '(p, q, i) := x in handle_pong s p q i) ps s.
+
+(* ------------------------------------------------------------------ the main loop around the PONG handling *)
+
+(* service/connectivity_state.rs and the two arms of Service::start that touch it, per address
+   family (false = IPv4, true = IPv6).  A window is (deadline on the tokio clock, incoming
+   sessions seen so far); [c_blocked] stands for Instant::now() < next_connectivity_test, which
+   holds for six hours after a window has run out (longer than any run). *)
+Record conn := {
+  c_window : option N;            (* config.auto_nat_listen_duration *)
+  c_wait4 : option (N * N);
+  c_wait6 : option (N * N);
+  c_blocked4 : bool;
+  c_blocked6 : bool
+}.
+
+Definition new_conn (window : option N) : conn :=
+  {| c_window := window; c_wait4 := None; c_wait6 := None; c_blocked4 := false; c_blocked6 := false |}.
+
+Record node := { n_svc : service; n_conn : conn }.
+
+(* ConnectivityState::should_count_ip_vote *)
+Definition should_count (c : conn) (v6 : bool) : bool :=
+  match c_window c with
+  | None => true
+  | Some _ => negb (if v6 then c_blocked6 c else c_blocked4 c)
+  end.
+
+(* ConnectivityState::enr_socket_update *)
+Definition enr_socket_update (c : conn) (v6 : bool) (now : N) : conn :=
+  match c_window c with
+  | None => c
+  | Some w =>
+    if v6 then {| c_window := c_window c; c_wait4 := c_wait4 c; c_wait6 := Some (now + w, 0);
+                  c_blocked4 := c_blocked4 c; c_blocked6 := c_blocked6 c |}
+    else {| c_window := c_window c; c_wait4 := Some (now + w, 0); c_wait6 := c_wait6 c;
+            c_blocked4 := c_blocked4 c; c_blocked6 := c_blocked6 c |}
+  end.
+
+(* ConnectivityState::received_incoming_connection: the second incoming session closes the window *)
+Definition count_incoming (w : option (N * N)) : option (N * N) :=
+  match w with
+  | None => None
+  | Some (d, k) => if 2 <=? k + 1 then None else Some (d, k + 1)
+  end.
+
+Definition received_incoming (c : conn) (v6 : bool) : conn :=
+  if v6 then {| c_window := c_window c; c_wait4 := c_wait4 c; c_wait6 := count_incoming (c_wait6 c);
+                c_blocked4 := c_blocked4 c; c_blocked6 := c_blocked6 c |}
+  else {| c_window := c_window c; c_wait4 := count_incoming (c_wait4 c); c_wait6 := c_wait6 c;
+          c_blocked4 := c_blocked4 c; c_blocked6 := c_blocked6 c |}.
+
+(* Enr::remove_udp_socket / remove_udp6_socket: the fields of ONE family go, the sequence number
+   is incremented and the record re-signed (whether or not the fields were present) *)
+Definition remove_udp (e : local_enr) (v6 : bool) : local_enr :=
+  if v6 then {| seq := seq e + 1; udp4 := udp4 e; udp6 := None |}
+  else {| seq := seq e + 1; udp4 := None; udp6 := udp6 e |}.
+
+Definition with_enr (s : service) (e : local_enr) : service :=
+  {| ip_votes := ip_votes s; dual_stack := dual_stack s; enr := e; events := events s |}.
+
+(* the arm `connectivity_timeout = self.connectivity_state.poll()`: the window of family [v6] has
+   run out - that family's address is withdrawn (no event) and its votes are not counted any more *)
+Definition timer_failure (n : node) (v6 : bool) : node :=
+  let c := n_conn n in
+  {| n_svc := with_enr (n_svc n) (remove_udp (enr (n_svc n)) v6);
+     n_conn := if v6 then {| c_window := c_window c; c_wait4 := c_wait4 c; c_wait6 := None;
+                             c_blocked4 := c_blocked4 c; c_blocked6 := true |}
+               else {| c_window := c_window c; c_wait4 := None; c_wait6 := c_wait6 c;
+                       c_blocked4 := true; c_blocked6 := c_blocked6 c |} |}.
+
+Definition due (w : option (N * N)) (now : N) : bool :=
+  match w with Some (d, _) => d <=? now | None => false end.
+
+Inductive lev :=
+| LPong (voter : N) (sock : bool * N) (conn_out : bool) (tick : N)   (* a PONG to one of the service's own PINGs *)
+| LIncoming (v6 : bool)                                              (* an incoming session over that family *)
+| LTime (now : N).                                                   (* the tokio clock reaches [now] *)
+
+(* [now] is the tokio clock (for the windows); the votes are stamped with the logical [tick] *)
+Definition lstep (n : node) (now : N) (e : lev) : node :=
+  match e with
+  | LPong voter sock co tick =>
+    let p := {| p_node := voter; p_sock := sock; p_count_ok := should_count (n_conn n) (fst sock);
+                p_conn_out := co; p_enr_ok := true |} in
+    let s' := handle_pong (n_svc n) p tick tick in
+    {| n_svc := s';
+       n_conn := if seq (enr (n_svc n)) <? seq (enr s')
+                 then enr_socket_update (n_conn n) (fst sock) now else n_conn n |}
+  | LIncoming v6 => {| n_svc := n_svc n; n_conn := received_incoming (n_conn n) v6 |}
+  | LTime t =>
+    (* both sleeps are polled through select(ipv4, ipv6): IPv4 first when both have run out *)
+    let n1 := if due (c_wait4 (n_conn n)) t then timer_failure n false else n in
+    if due (c_wait6 (n_conn n1)) t then timer_failure n1 true else n1
+  end.
